@@ -163,9 +163,19 @@ static int do_replay(const char *in, const char *out)
 {
 	FILE *fi = fopen(in, "r"), *fo = fopen(out, "w");
 	if (!fi || !fo) { perror("open"); return 3; }
-	char *line = NULL; size_t cap = 0;
+	/* read everything before the first fork: a child must not share an input position with us */
+	char *all = NULL; size_t alln = 0, allcap = 0;
+	for (;;) {
+		if (alln + 65536 + 1 > allcap) { allcap = allcap ? allcap * 2 : 1 << 20; all = realloc(all, allcap); if (!all) return 3; }
+		size_t k = fread(all + alln, 1, 65536, fi);
+		if (k == 0) break;
+		alln += k;
+	}
+	all[alln] = 0;
+	fclose(fi);
 	int ncrash = 0;
-	while (getline(&line, &cap, fi) > 0) {
+	char *lsave = NULL;
+	for (char *line = strtok_r(all, "\n", &lsave); line; line = strtok_r(NULL, "\n", &lsave)) {
 		char *save = NULL;
 		char *tok = strtok_r(line, " \n", &save);
 		if (!tok) continue;
